@@ -1,6 +1,6 @@
 (* C45 — the statements exported to Properties/C45.v. *)
 From Coq Require Import ZArith List Bool Lia.
-From GV Require Import C45.Model C45.Trace C45.Sem C45.Chain C45.StageFlow C45.StageFused C45.StageBatch C45.Main C45.Spec.
+From GV Require Import C45.Model C45.Trace C45.Sem C45.Chain C45.StageFlow C45.StageFused C45.StageBatch C45.StagePar C45.StageParU C45.Demand C45.Main C45.Spec.
 Import ListNotations.
 Open Scope Z_scope.
 
@@ -181,7 +181,8 @@ Proof. vm_compute. auto. Qed.
 
 (* ---------- examples: the hypotheses are satisfiable ---------- *)
 Example ex_pipeline : list op :=
-  [OMap 2 1; OFilter 3 0; OScan 0; OFlatMap 3; OBuffer 2; ODedup; OBatch 4; OFlatten; OTryMap 1 0 7 3 42 SFailFast].
+  [OMap 2 1; OFilter 3 0; OScan 0; OFlatMap 3; OBuffer 2; ODedup; OBatch 4; OFlatten; OTryMap 1 0 7 3 42 SFailFast;
+   OParMap true 3 2 0].
 
 Example ex_kok_fused : Forall kok (plan true ex_pipeline).
 Proof. vm_compute. repeat constructor. Qed.
@@ -195,4 +196,20 @@ Proof.
   eexists. split.
   - eapply reach_step; [apply reach_init|]. vm_compute. apply ss_chain. eapply cs_down; [reflexivity|]. vm_compute. reflexivity.
   - vm_compute. discriminate.
+Qed.
+
+(* an unordered parallel stage that has run to completion with its three workers finishing in the order 3,1,2 *)
+Example ex_unordered : exists n, node_reach (KPar false 3 2 1) n /\ n_alive n = false /\
+  n_cin n = [DElem (VZ 10); DElem (VZ 20); DElem (VZ 30); DComplete] /\
+  n_cout n = [DElem (VZ 61); DElem (VZ 21); DElem (VZ 41); DComplete].
+Proof.
+  pose proof (nr_init (KPar false 3 2 1)) as R0.
+  pose proof (nr_step _ _ (FromUp (DElem (VZ 10))) R0 eq_refl ltac:(simpl; auto)) as R1. vm_compute in R1.
+  pose proof (nr_step _ _ (FromUp (DElem (VZ 20))) R1 eq_refl ltac:(simpl; auto)) as R2. vm_compute in R2.
+  pose proof (nr_step _ _ (FromUp (DElem (VZ 30))) R2 eq_refl ltac:(simpl; auto)) as R3. vm_compute in R3.
+  pose proof (nr_step _ _ (FromUp DComplete) R3 eq_refl ltac:(simpl; auto)) as R4. vm_compute in R4.
+  pose proof (nr_step _ _ (WorkerDone 3) R4 eq_refl ltac:(vm_compute; auto)) as R5. vm_compute in R5.
+  pose proof (nr_step _ _ (WorkerDone 1) R5 eq_refl ltac:(vm_compute; auto)) as R6. vm_compute in R6.
+  pose proof (nr_step _ _ (WorkerDone 2) R6 eq_refl ltac:(vm_compute; auto)) as R7. vm_compute in R7.
+  eexists. split; [exact R7|]. vm_compute. auto.
 Qed.
